@@ -96,9 +96,15 @@ func (r *CachingRoundTripper) cacheResponse(httpRequest *http.Request, httpRespo
 		log.Logger().Debugf("response (url=%s) is not cacheable: %v", httpRequest.URL.String(), reasons)
 		return nil
 	}
-	responseBytes, err := io.ReadAll(httpResponse.Body)
+	// Never read more of the body than the cache can hold: the remote server decides how much it sends.
+	responseBytes, err := io.ReadAll(io.LimitReader(httpResponse.Body, int64(r.cache.maxBytes)+1))
 	if err != nil {
 		return fmt.Errorf("error while reading response body for caching: %w", err)
+	}
+	if len(responseBytes) > r.cache.maxBytes {
+		// Response doesn't fit in the cache, so it isn't cached: hand it to the caller as it is (what was read, followed by the remainder).
+		httpResponse.Body = &prefixedBody{Reader: io.MultiReader(bytes.NewReader(responseBytes), httpResponse.Body), Closer: httpResponse.Body}
+		return nil
 	}
 	r.cache.insert(&cacheEntry{
 		responseData:    responseBytes,
@@ -111,6 +117,12 @@ func (r *CachingRoundTripper) cacheResponse(httpRequest *http.Request, httpRespo
 	})
 	httpResponse.Body = io.NopCloser(bytes.NewReader(responseBytes))
 	return nil
+}
+
+// prefixedBody is a response body of which the first part has already been read.
+type prefixedBody struct {
+	io.Reader
+	io.Closer
 }
 
 func newCache(responsesCacheSize int) *responseCache {
